@@ -213,6 +213,8 @@ def r_CircularConvolve(c):
         g = np.fft.ifftn(h, axes=list(range(h.ndim - nd, h.ndim)))
         real_out = c["dtype"] in ("float64", "float32")
     else:
+        # fftn(h, s=conv_shape): the filter is zero-padded, or cropped on the axes where it is longer
+        h = h[tuple([slice(None)] * (h.ndim - nd) + [slice(0, n) for n in conv_shape])]
         pad = [(0, 0)] * (h.ndim - nd) + [(0, n - k) for n, k in zip(conv_shape, h.shape[h.ndim - nd :])]
         g = np.pad(h, pad)
         hc = c["h_center"]
@@ -403,19 +405,62 @@ def _project(shape, axes, coords, cdiff):
     return from_fn(fn, shape)
 
 
-def r_ProjectedGradient(c):
+def proj_coords(name, c):
+    """(axes, coords): coords is None (plain stacked differences) or, per local axis, the list of coordinate
+    fields c_m (arrays broadcastable against the input) multiplying the difference along axes[m]"""
     sh = c["shape"]
-    axes = list(range(len(sh))) if c["axes"] is None else c["axes"]
-    coords = None
-    if c["coord"] is not None:
+    if name == "ProjectedGradient":
+        axes = list(range(len(sh))) if c["axes"] is None else c["axes"]
+        coords = None
+        if c["coord"] is not None:
+            coords = []
+            for cc in c["coord"]:
+                if "block" in cc:
+                    coords.append([dec(b) for b in cc["block"]])
+                else:
+                    a = dec(cc["array"])
+                    coords.append([a[m] for m in range(a.shape[0])])
+        return axes, coords
+    if name == "PolarGradient":
+        axes = [0, 1] if c["axes"] is None else c["axes"]
+        g0, g1 = _position_grids(sh, axes, c["center"], [(sh[a] - 1) / 2 for a in axes])
+        theta = np.arctan2(g0 + 0 * g1, g1 + 0 * g0)
         coords = []
-        for cc in c["coord"]:
-            if "block" in cc:
-                coords.append([dec(b) for b in cc["block"]])
-            else:
-                a = dec(cc["array"])
-                coords.append([a[m] for m in range(a.shape[0])])
-    return _project(sh, axes, coords, c["cdiff"])
+        if c["angular"]:
+            coords.append([-np.cos(theta), np.sin(theta)])
+        if c["radial"]:
+            coords.append([np.sin(theta), np.cos(theta)])
+        return axes, coords
+    if name == "CylindricalGradient":
+        axes = [0, 1, 2] if c["axes"] is None else c["axes"]
+        dc = [(sh[a] - 1) / 2 for a in axes]
+        dc[2] = 0
+        g0, g1, _ = _position_grids(sh, axes, c["center"], dc)
+        theta = np.arctan2(g0 + 0 * g1, g1 + 0 * g0)
+        coords = []
+        if c["angular"]:
+            coords.append([-np.cos(theta), np.sin(theta), 0.0])
+        if c["radial"]:
+            coords.append([np.sin(theta), np.cos(theta), 0.0])
+        if c["axial"]:
+            coords.append([0.0, 0.0, 1.0])
+        return axes, coords
+    if name == "SphericalGradient":
+        axes = [0, 1, 2] if c["axes"] is None else c["axes"]
+        g0, g1, g2 = _position_grids(sh, axes, c["center"], [(sh[a] - 1) / 2 for a in axes])
+        z = 0 * g0 + 0 * g1 + 0 * g2
+        g0, g1, g2 = g0 + z, g1 + z, g2 + z
+        theta = np.arctan2(g1, g0)
+        phi = np.arctan2(np.sqrt(g0**2 + g1**2), g2)
+        coords = []
+        if c["azimuthal"]:
+            coords.append([np.sin(theta), -np.cos(theta), 0.0])
+        if c["polar"]:
+            coords.append([np.cos(phi) * np.cos(theta), np.cos(phi) * np.sin(theta), -np.sin(phi)])
+        if c["radial"]:
+            coords.append([np.sin(phi) * np.cos(theta), np.sin(phi) * np.sin(theta), np.cos(phi)])
+        return axes, coords
+    raise KeyError(name)
 
 
 def _position_grids(shape, axes, center, default_center):
@@ -432,52 +477,25 @@ def _position_grids(shape, axes, center, default_center):
     return out
 
 
+def _r_proj(name, c):
+    axes, coords = proj_coords(name, c)
+    return _project(c["shape"], axes, coords, c["cdiff"])
+
+
+def r_ProjectedGradient(c):
+    return _r_proj("ProjectedGradient", c)
+
+
 def r_PolarGradient(c):
-    sh = c["shape"]
-    axes = [0, 1] if c["axes"] is None else c["axes"]
-    g0, g1 = _position_grids(sh, axes, c["center"], [(sh[a] - 1) / 2 for a in axes])
-    theta = np.arctan2(g0 + 0 * g1, g1 + 0 * g0)
-    coords = []
-    if c["angular"]:
-        coords.append([-np.cos(theta), np.sin(theta)])
-    if c["radial"]:
-        coords.append([np.sin(theta), np.cos(theta)])
-    return _project(sh, axes, coords, c["cdiff"])
+    return _r_proj("PolarGradient", c)
 
 
 def r_CylindricalGradient(c):
-    sh = c["shape"]
-    axes = [0, 1, 2] if c["axes"] is None else c["axes"]
-    dc = [(sh[a] - 1) / 2 for a in axes]
-    dc[2] = 0
-    g0, g1, _ = _position_grids(sh, axes, c["center"], dc)
-    theta = np.arctan2(g0 + 0 * g1, g1 + 0 * g0)
-    coords = []
-    if c["angular"]:
-        coords.append([-np.cos(theta), np.sin(theta), 0.0])
-    if c["radial"]:
-        coords.append([np.sin(theta), np.cos(theta), 0.0])
-    if c["axial"]:
-        coords.append([0.0, 0.0, 1.0])
-    return _project(sh, axes, coords, c["cdiff"])
+    return _r_proj("CylindricalGradient", c)
 
 
 def r_SphericalGradient(c):
-    sh = c["shape"]
-    axes = [0, 1, 2] if c["axes"] is None else c["axes"]
-    g0, g1, g2 = _position_grids(sh, axes, c["center"], [(sh[a] - 1) / 2 for a in axes])
-    z = 0 * g0 + 0 * g1 + 0 * g2
-    g0, g1, g2 = g0 + z, g1 + z, g2 + z
-    theta = np.arctan2(g1, g0)
-    phi = np.arctan2(np.sqrt(g0**2 + g1**2), g2)
-    coords = []
-    if c["azimuthal"]:
-        coords.append([np.sin(theta), -np.cos(theta), 0.0])
-    if c["polar"]:
-        coords.append([np.cos(phi) * np.cos(theta), np.cos(phi) * np.sin(theta), -np.sin(phi)])
-    if c["radial"]:
-        coords.append([np.sin(phi) * np.cos(theta), np.sin(phi) * np.sin(theta), np.cos(phi)])
-    return _project(sh, axes, coords, c["cdiff"])
+    return _r_proj("SphericalGradient", c)
 
 
 # ---------------------------------------------------------------- X-ray
